@@ -211,3 +211,57 @@ impl Writer for MonWriter {
         self.app(&value.to_be_bytes())
     }
 }
+
+/// A conforming Writer that behaves as if it already held `vbase` octets (which are not stored): positions at
+/// and beyond 2^31 / 2^32 without the memory.  Appends and positional overwrites are logged RELATIVE to
+/// `vbase` (an overwrite that starts below it is logged at -1 and not performed).
+pub struct SparseWriter {
+    pub vbase: usize,
+    pub data: Vec<u8>,
+    pub calls: Vec<Value>,
+}
+
+impl SparseWriter {
+    pub fn new(vbase: usize) -> Self {
+        SparseWriter { vbase, data: Vec::new(), calls: Vec::new() }
+    }
+    fn app(&mut self, b: &[u8]) {
+        self.calls.push(json!(["app", self.data.len(), b.len()]));
+        self.data.extend_from_slice(b);
+    }
+}
+
+impl Writer for SparseWriter {
+    fn is_empty(&self) -> bool {
+        self.vbase == 0 && self.data.is_empty()
+    }
+    fn len(&self) -> usize {
+        self.vbase + self.data.len()
+    }
+    fn write_bytes(&mut self, bytes: &[u8]) {
+        self.app(bytes)
+    }
+    fn write_bytes_at(&mut self, bytes: &[u8], offset: usize) {
+        if offset < self.vbase {
+            self.calls.push(json!(["at", -1, bytes.len(), self.data.len()]));
+            return;
+        }
+        let rel = offset - self.vbase;
+        self.calls.push(json!(["at", cap(rel), bytes.len(), self.data.len()]));
+        if rel.checked_add(bytes.len()).map_or(false, |e| e <= self.data.len()) {
+            self.data[rel..rel + bytes.len()].copy_from_slice(bytes);
+        }
+    }
+    fn write_u8(&mut self, value: u8) {
+        self.app(&[value])
+    }
+    fn write_u16_be(&mut self, value: u16) {
+        self.app(&value.to_be_bytes())
+    }
+    fn write_u32_be(&mut self, value: u32) {
+        self.app(&value.to_be_bytes())
+    }
+    fn write_u64_be(&mut self, value: u64) {
+        self.app(&value.to_be_bytes())
+    }
+}
